@@ -190,14 +190,14 @@ func c15JSON(r *graphql.Result) string {
 // ---- one trial ----
 
 type c15Trial struct {
-	Front   int    `json:"front"`   // 0 ok, 1 does not parse, 2 does not validate
-	Setup   int    `json:"setup"`   // 0 stream, 1 subscribe error, 2 non-channel value, 3 panic(non-error), 4 nil result, 5 panic(error), 6 unknown operation name, 7 field without Subscribe
-	Kinds   []int  `json:"kinds"`   // payload kind per event
-	Sched   string `json:"sched"`   // actions
-	Sync    bool   `json:"sync"`    // wait for library goroutines to park after every action
-	Direct  bool   `json:"direct"`  // call ExecuteSubscription instead of Subscribe
-	NilCtx  bool   `json:"nil_ctx"` // pass no context (only when the schedule has no cancel)
-	Trace   string `json:"trace"`
+	Front   int      `json:"front"`   // 0 ok, 1 does not parse, 2 does not validate
+	Setup   int      `json:"setup"`   // 0 stream, 1 subscribe error, 2 non-channel value, 3 panic(non-error), 4 nil result, 5 panic(error), 6 unknown operation name, 7 field without Subscribe
+	Kinds   []int    `json:"kinds"`   // payload kind per event
+	Sched   string   `json:"sched"`   // actions
+	Sync    bool     `json:"sync"`    // wait for library goroutines to park after every action
+	Direct  bool     `json:"direct"`  // call ExecuteSubscription instead of Subscribe
+	NilCtx  bool     `json:"nil_ctx"` // pass no context (only when the schedule has no cancel)
+	Trace   string   `json:"trace"`
 	Results []string `json:"results,omitempty"`
 }
 
